@@ -343,7 +343,7 @@ def p_C08(ctx):
 
 def p_C09(ctx):
     tw = twist_file(ctx, 6 if ctx.quick() else 40)
-    flow_trace(ctx, "affine", 10 ** 9, 10 ** 9, chunk=60, extra=["--in", tw])
+    flow_trace(ctx, "affine", 10 ** 9, 10 ** 9, chunk=600, extra=["--in", tw])
 
 
 def p_C14(ctx):
@@ -438,7 +438,7 @@ def p_C18(ctx):
     flow_dual(ctx, "conv", 10 ** 9, 10 ** 9, 4000)
     flow_dual(ctx, "sqrt", 800, 8000, 400)
     flow_dual(ctx, "decode", 10 ** 9, 10 ** 9, 700)
-    flow_dual(ctx, "affine", 10 ** 9, 10 ** 9, 60, extra=["--in", tw])
+    flow_dual(ctx, "affine", 10 ** 9, 10 ** 9, 600, extra=["--in", tw])
     flow_dual(ctx, "group", 900, 12000, 300)
     flow_dual(ctx, "encode", 360, 3600, 180)
     flow_dual(ctx, "gt", 120, 1500, 60, extra=["--focus", "nosweep"])
